@@ -555,7 +555,11 @@ class Interface(object):
                     child_ns = c.get_namespace()
                     if child_ns == ns:
                         if not self.has_class(c):
-                            self.add_class(c, add_parent=False)
+                            # cls can be a renamed variant of the class c
+                            # really extends (eg. Mandatory(Parent)), which
+                            # then needs to be added as well.
+                            extends = getattr(c, '__extends__', None)
+                            self.add_class(c, add_parent=extends is not cls)
                             self.deps[c].add(cls)
                     else:
                         # polymorphic protocols still refer to it by prefix:
